@@ -24,6 +24,8 @@ CHECKS = {
                 tech="z3-term symbolic execution of chained fermionic tensordot over all routes vs graded oracle; CrossHair on label order and resolve_combined_oddpos", ref="§4 C04", engine="B+A"),
     "C05": dict(text=B + " Every input entry is a distinct variable; the oracle locates it through the result's own sub-index table; unfuse must restore every entry; insert and concat must agree. " + A, note=NOTE_B + " " + NOTE_A,
                 tech="z3-term symbolic execution of fuse/unfuse (both strategies, cache on/off) + CrossHair on calc_fuse_group_info/accum_for_split", ref="§4 C05", engine="B+A"),
+    "C06": dict(text=B + " blockwise = fused = auto (rank, deep index tables, labels, values); pre-fused free legs stay fused; align+fuse contracted legs (insert/concat)+single-pair contraction equals the k-pair contraction; fusing free legs before equals after.", note=NOTE_B,
+                tech="z3-term symbolic execution of contraction strategies and fuse/contract commutation", ref="§4 C06", engine="B"),
     "C07": dict(text=A + " calc_reshape_args with symbolic sizes / merge pattern / drop pattern against an independent shape simulator, forward and reverse. " + B + " Every merge/drop target and back; content preserved (each input variable exactly once up to sign); three call routes agree.", note=NOTE_A + " " + NOTE_B,
                 tech="CrossHair on calc_reshape_args + z3-term symbolic execution of reshape round trips", ref="§4 C07", engine="A+B"),
     "C08": dict(text=B + " Each operation through every call route; an operation may raise (all routes alike) but never return another value.", note=NOTE_B,
